@@ -269,6 +269,7 @@ func (r *runner) run(ctx context.Context, isStream bool, input any, opts ...Opti
 		// 2. get completed tasks
 		// 3. calculate next tasks
 
+		verifTraceSubmit(ctx, step, nextTasks)
 		err = tm.submit(nextTasks)
 		if err != nil {
 			return nil, newGraphRunError(fmt.Errorf("failed to submit tasks: %w", err))
